@@ -155,6 +155,11 @@ def expected(sc):
         if (h % 100) < P["hcb"]:
             cu = uid * 8 + 7
             add(cu, [mix(cu) % n], 8, epoch, 0, "async", "c")
+        h = mix(h)
+        if (h % 100) < P.get("hburst", 0):
+            for j in range(P.get("hburstk", 0)):
+                cu = uid * 4096 + 16 + j
+                add(cu, [mix(cu) % n], 8, epoch, 0, "async", "h")
 
     def add(uid, ranks, size, epoch, ttl, kind, ctx):
         assert uid not in exp, uid
